@@ -62,10 +62,13 @@ theorem no_hidden_state :
       (Expect.registryVars.contains g.2.1 && g.2.2.2.all (Expect.allowedWriters.contains ·))) = true :=
   Expect.globals_written_only_by_registry_functions
 
-/-- every package-level variable is a sentinel error, a table, or a registry -/
+/-- every package-level variable is a sentinel error, a table (map, slice, array), a registry or a scalar of a basic
+    type; in particular none is a pointer to / a value of a struct type, an interface, a func, a value of another
+    package's type or the result of a call the extractor cannot type (kinds as classified by `extract/main.go`
+    `globalKind`, named types followed to their definition): no package-level object with mutable fields -/
 theorem globals_are_tables_or_errors :
     Generated.globals.all (fun g => g.2.2.1 == "error" || g.2.2.1 == "map" || g.2.2.1 == "slice" ||
-      g.2.2.1 == "scalar") = true := Expect.globals_kinds
+      g.2.2.1 == "array" || g.2.2.1 == "scalar") = true := Expect.globals_kinds
 
 /-- non-vacuity: a three-goroutine system under two different interleavings -/
 example : run (⟨fun (inp : Nat) _ g l => l + inp + g⟩ : System Nat Unit Nat) 10 () [1, 2, 1, 3] (fun _ => 0) 1 =
